@@ -129,7 +129,12 @@ func ruleSet(src, ver string) *rulecfg.RuleSet {
 	for _, d := range versions[ver] {
 		rs.Rules = append(rs.Rules, rulecfg.Rule{
 			ID:      d.id,
-			Matcher: rulecfg.Matcher{Routes: []rulecfg.Route{{Path: d.path}}, Scheme: d.scheme},
+			// hosts, methods and path expressions make the rule factory build every kind of matcher (state shared inside the
+			// factory between concurrently loading providers is in reach of the race pass)
+			Matcher: rulecfg.Matcher{
+				Routes: []rulecfg.Route{{Path: d.path}}, Scheme: d.scheme, Methods: []string{"GET", "POST"},
+				Hosts: []rulecfg.HostMatcher{{Type: "exact", Value: "h"}, {Type: "glob", Value: "*.internal"}},
+			},
 			Execute: []config.MechanismConfig{{"authenticator": "anon"}},
 		})
 	}
